@@ -1149,13 +1149,12 @@ class Action:
 
         npath = opath
         for value in value.split(delim):
+            npath = [d for d in npath if d != value] # an element that's already there is moved, not kept in place
             if fwd:
                 if append:
                     npath = npath + [value]
                 else:
                     npath = [value] + npath
-            else:
-                npath = [d for d in npath if d != value]
 
         npath = self.pathUnique(npath) # remove duplicates
 
